@@ -213,22 +213,24 @@ PROPS["C09"] = {
 _CODEC_TB = [KERNEL, AXIOMS, TIE, HARNESS,
              "extractor layouts (go/ast): (offset, width, struct field) tables of the Parse/Encode pairs of 12 fixed-layout types, regenerated into lean/JT/Gen/Layouts.lean on every run",
              "Go-side oracles written by the harness (harness/internal/props/codec_*.go): registry of 47 decoders, in-domain value generators, reflect-based structural comparison",
-             "modelled rather than verified: Go slices as value lists with an explicit out-of-range outcome; BCD time strings, GBK text (golang.org/x/text) and reflection-based TerminalParamDetails.encode have no Lean model"]
+             "extractor paramtable (go/ast): per terminal-parameter ID the demanded length, the bytes of content read, the kind and the struct field, plus the declaration order of the struct fields, regenerated into lean/JT/Gen/ParamTable.lean on every run",
+             "modelled rather than verified: Go slices as value lists with an explicit out-of-range outcome; BCD time strings as their raw BCD bytes; GBK text (golang.org/x/text) is not modelled (string contents are kept as raw bytes; the correspondence uses GBK-encodable text); the reflection walk of TerminalParamDetails.encode is modelled from the extracted field order and tied by correspondence only"]
 
 PROPS["C03"] = {
     "id": "C03",
     "lean_modules": ["JT.Props.C03"],
-    "extractors": ["layouts", "bittables", "addlen"],
+    "extractors": ["layouts", "bittables", "addlen", "paramtable"],
     "functional_ops": ["tot"],
     "rule": ("for each of 47 decoders (35 message types x header version x active-safety dialect where it matters, 5 vendor extension parsers stand-alone and plugged into 0x0200, jt808 and jt1078 frame decoders): valid bodies from the C07 value generators, "
              "every count/length byte perturbed (0, 1, ff, +-1) at the first ~40 offsets, truncation at every offset, extension by 1..3 bytes, splices of two valid bodies, random bodies; every (additional-information id, length) and (terminal-parameter id, length) pair; "
              "each case decoded four ways on the Go side: fresh receiver + exact-capacity buffer, spare capacity poisoned with 00 and with ff, receiver that already parsed 0..3 other bodies (2 s watchdog); String() of every successful parse. non-trivial = class label (type:outcome[:reused])."),
     "technique": "Lean 4 proof of bounds safety for the modelled decoders (explicit out-of-range outcome; tables regenerated by go/ast) + four-way differential execution of all decoders on the Go side",
-    "level_text": ("Machine-checked Lean 4 theorems, for every byte string: 40 of the 47 registered decoders are modelled with every slice/index going through a checked accessor that yields `panic` where Go would, and none has a panic outcome: "
+    "level_text": ("Machine-checked Lean 4 theorems, for every byte string: 42 of the 47 registered decoders are modelled with every slice/index going through a checked accessor that yields `panic` where Go would, and none has a panic outcome: "
                    "the twelve fixed-layout Parse methods (field tables regenerated from the source, tiling obligation checked by the kernel; they accept exactly the bodies of the layout's length); the location decoder (0x0200, items of 0x0704, 0x0801) with all additional-information item decoders "
                    "(admissible-length table regenerated from the source); the frame decoder (its checked-access version equals the total model: the length guards cover every access); the attachment control frames 0x1210/0x1211/0x1212 for five dialects; "
                    "0x0002, 0x8104, 0x9003, 0x0102, 0x0100, 0x8100, 0x9101, 0x9201, 0x9206, 0x1205, 0x9205, 0x9202, 0x8801, 0x1005 and 0x9208 for every version/dialect; the vendor extensions 0x64, 0x65, 0x67, 0x70 (0x66, open finding F03, is proved to panic exactly on contents of 40 or 40+9n bytes). "
-                   "PARTIAL: terminal parameters (0x0104/0x8103) and the location report with a plugged-in vendor extension have no Lean model; receiver state and memory behind a slice are not expressible in the value model. For ALL 47 decoders the Go side decides the property by differential execution on every run: "
+                   "terminal parameters (0x8103, 0x0104: the per-ID table of demanded length / bytes read is regenerated from parseParam's switch on every run, `param_table_safe` is checked by the kernel, and the walk never panics for any count byte and body). "
+                   "PARTIAL: the location report with a plugged-in vendor extension has no Lean model of the composition; receiver state and memory behind a slice are not expressible in the value model. For ALL 47 decoders the Go side decides the property by differential execution on every run: "
                    "no panic, no hang, same outcome and same value with and without spare capacity (two poisons) and with a reused receiver, String() total. Modelled decoders are additionally compared outcome-by-outcome with the Lean model (about 58 000 bodies per quick run)."),
     "level_note": "Trusted: Lean kernel; extractors; the Go-side four-way oracle and its generators; memory behind a slice and receiver state are not expressible in the value model (decided by execution only). Open finding F03 (extension 0x66) is excluded by signature.",
     "trusted_base": _CODEC_TB,
@@ -239,7 +241,7 @@ PROPS["C03"] = {
 PROPS["C07"] = {
     "id": "C07",
     "lean_modules": ["JT.Props.C07"],
-    "extractors": ["layouts"],
+    "extractors": ["layouts", "paramtable"],
     "functional_ops": ["rt"],
     "rule": ("for each of the ~33 two-way message types x protocol version (2011/2013/2019 where layouts differ) x active-safety dialect: in-domain values generated as Go structs (fixed-width strings without NUL, BCD times, GBK-encodable text incl. Chinese, count/length fields consistent, "
              "list lengths 0..max, every terminal-parameter id alone and in groups, zero-length strings), encoded with the library; oracle: Parse(body) succeeds, Encode gives the identical bytes, re-parse equals, value equals the generated one field by field; helper round trips (Bcd2Dec, Time2BCD/BCD2Time, GBK, String2FillingBytes). "
@@ -249,7 +251,8 @@ PROPS["C07"] = {
                    "numbers of any width survive PutUint/Uint and every w-byte string is the encoding of its number; 0x8003 and 0x9212 round-trip at struct level (every range at its own 8-byte position); "
                    "seven more types at the value level — 0x8100, 0x9101, 0x9201, 0x9206 (length-prefixed strings), 0x1205 (list of 28-byte records), 0x9102, 0x9207 — with Parse(Encode v) = v for every well-formed value and Encode(Parse b) = b for every accepted body whose BCD time fields hold no nibble 0xA "
                    "(such bytes are not BCD timestamps; BCD2Time renders 0xA as ':' which Time2BCD strips — the unconditional law is refuted by a kernel-checked counterexample and the condition is exact). "
-                   "PARTIAL: the other two-way types (GBK text, NUL-trimmed strings, parameters, 0x0100, 0x0102, 0x9208, 0x1210 ...) have no Lean model and are decided by the Go-side oracle on generated in-domain values on every run; modelled types are also compared byte for byte with the model."),
+                   "terminal parameters (0x8103/0x0104), for every parameter ID of the table regenerated from the source: any list of well-framed items parses back to itself and an accepted list is exactly the concatenation of the items returned (nothing dropped, merged, reordered; count byte = number of items mod 256), the reflection walk of encode() being modelled from the extracted field order and compared byte for byte. "
+                   "PARTIAL: the other two-way types (GBK text, NUL-trimmed strings, 0x0100, 0x0102, 0x9208, 0x1210 ...) have no Lean model and are decided by the Go-side oracle on generated in-domain values on every run; modelled types are also compared byte for byte with the model."),
     "level_note": "Trusted: Lean kernel; extractor; Go-side generators of in-domain values and reflect-based comparison; GBK conversion (golang.org/x/text) and BCD time strings have no Lean model. Open finding F13 (parameters 0x18/0x19/0x21) is excluded by signature.",
     "trusted_base": _CODEC_TB,
     "assumptions": ["'in-domain' is what the harness generators produce (documented per type in codec_gen.go)", "types without a Lean model are decided by the Go-side oracle only (sampled)"],
